@@ -361,3 +361,31 @@ func (cr *clientCodecRoleSet) writes(p *Prog) []codecWrite {
 	}
 	return out
 }
+
+// FieldRole resolves a struct field by name, or, when it was renamed, as the only field of
+// the struct whose type satisfies pred.
+func (p *Prog) FieldRole(pkg, typ, name string, pred func(types.Type) bool) *types.Var {
+	if f := p.FieldOpt(pkg, typ, name); f != nil {
+		return f
+	}
+	if f := p.fieldByType(pkg, typ, pred); f != nil {
+		return f
+	}
+	fatalf("anchor: field %s.%s.%s not found (by name or by type)", pkg, typ, name)
+	return nil
+}
+
+func isRequestIface(t types.Type) bool { return typeIs(t, "proxycore", "Request") }
+func isRawFramePtr(t types.Type) bool  { return typeIs(t, "frame", "RawFrame") }
+func isSyncMap(t types.Type) bool {
+	s := types.TypeString(t, nil)
+	return s == "sync.Map" || s == "*sync.Map"
+}
+func isInt16Chan(t types.Type) bool {
+	c, ok := t.Underlying().(*types.Chan)
+	if !ok {
+		return false
+	}
+	b, ok := c.Elem().Underlying().(*types.Basic)
+	return ok && b.Kind() == types.Int16
+}
